@@ -15,6 +15,7 @@ pub mod grid;
 pub mod api;
 pub mod xbuild;
 pub mod indcheck;
+pub mod mrefs;
 
 pub struct ReplayReq {
 	pub system: String,
